@@ -174,6 +174,40 @@ func enum(e *core.EnumCtx) {
 					tryCase(wire.Fault{Kind: wire.ZeroChunk, Chunk: cs, A: i})
 				}
 			}
+			// record-level faults (wire/fields.go) on JSON messages: every text cut to 0..3 bytes and to
+			// half, every value lost (null / absent), every value written over every other one and every
+			// pair swapped (a stride keeps the pairs of one message under 6000)
+			if spans := wire.Fields(msg); len(spans) > 1 {
+				nStr := 0
+				for _, sp := range spans {
+					if sp.Kind == 's' {
+						for _, keep := range []int{0, 1, 2, 3, (sp.Hi - sp.Lo - 2) / 2} {
+							if keep < sp.Hi-sp.Lo-2 {
+								tryCase(wire.Fault{Kind: wire.FieldTruncate, A: nStr, B: keep})
+							}
+						}
+						nStr++
+					}
+				}
+				n := len(spans) - 1
+				for i := 0; i < n; i++ {
+					tryCase(wire.Fault{Kind: wire.FieldLost, A: i, B: 0})
+					tryCase(wire.Fault{Kind: wire.FieldLost, A: i, B: 1})
+				}
+				pstride := n*(n+1)/6000 + 1
+				pi := 0
+				for i := 0; i < n; i++ {
+					for j := 0; j <= n; j++ {
+						if pi++; pi%pstride != 0 {
+							continue
+						}
+						tryCase(wire.Fault{Kind: wire.FieldMisdirect, A: i, B: j})
+						if j > i+1 {
+							tryCase(wire.Fault{Kind: wire.FieldSwap, A: i, B: j - 1})
+						}
+					}
+				}
+			}
 		}
 	}
 	if e.Sum.Extra == nil {
